@@ -92,3 +92,84 @@ Print Assumptions C07_gf_lib_keeps_rxq.
 From N2kV Require Spec.DevListSpec Proofs.DevListProofs.
 Theorem C07_devlist_heap_safe : DevListSpec.heap_safe_stmt.  Proof. exact DevListProofs.heap_safe. Qed.
 Print Assumptions C07_devlist_heap_safe.
+
+(* ================= the public application calls (Model/ApiDefs.v) =================
+   The same conclusion for histories in which the application also calls SendIsoAddressClaim, SendProductInformation,
+   SendConfigurationInformation, SendTx/RxPGNList, SendHeartbeat (both), SetDeviceInformationInstances, SetDeviceInformation, Restart,
+   SetMode and the Set/Extend...Messages setters at any time, with ANY device index (statements in Spec/ApiSafeSpec.v; no call is
+   excluded; histories containing SetMode assume at most 251 devices - the library allows 9 - because the model keeps source + i - 252
+   unreduced where the C++ has a uint8_t: C07_api_unbounded_refuted is the 258-device witness). *)
+From N2kV Require Import Model.ApiDefs Spec.ApiSafeSpec Proofs.ApiSafeProofs.
+Theorem C07_api_node_safe : api_node_safe_stmt.  Proof. exact api_node_safe. Qed.
+Print Assumptions C07_api_node_safe.
+Theorem C07_api_node_safe_lib : api_node_safe_lib_stmt.  Proof. exact api_node_safe_lib. Qed.
+Print Assumptions C07_api_node_safe_lib.
+Theorem C07_api_slot_invariants : api_slot_invariants_stmt.  Proof. exact api_slot_invariants. Qed.
+Print Assumptions C07_api_slot_invariants.
+Theorem C07_api_unbounded_refuted : api_node_safe_unbounded_refuted_stmt.  Proof. exact api_node_safe_unbounded_refuted. Qed.
+Print Assumptions C07_api_unbounded_refuted.
+
+(* ---------- non-vacuity: the node of the D-14 scenario, driven through the public calls ----------
+   SendProductInformation on the cold node (reaches Open() through SendMsg, nothing goes out yet), the node opens and claims 22,
+   then: a claim on request (broadcast with index -1 = device 0), calls with device indices -1 / 7 / -3 / 1 / 9 that the entry points
+   refuse, the receive list by ISO-TP to 50, forced heartbeats, new instances and device information (the NAME changes), a fast-packet
+   list, SetMode(ListenAndNode, 251) (the device is re-addressed to 251 without a claim) and Restart (claim from 251). *)
+Definition ex_api_ops : list xop :=
+  [XApi (ASendProd 0);
+   XBase RPoll; XBase (RBase (OTick 1)); XBase RPoll; XBase (RBase (OTick 201)); XBase RPoll; XBase (RBase (OTick 251)); XBase RPoll;
+   XApi (ASendClaim 255 (-1) 0);
+   XApi (ASendClaim 50 (-1) 0);
+   XApi (ASendTxList 255 7 false);
+   XApi (ASendRxList 50 0 true);
+   XApi (ASendHeartbeatAll true);
+   XApi (ASendHeartbeatDev (-3));
+   XApi (ASendHeartbeatDev 0);
+   XApi (ASendConf 1);
+   XApi (ASetInstances 0 1 2 3);
+   XApi (ASetDeviceInformation 0 12345 130 25 2046 4);
+   XApi (ASetDeviceInformation 9 12345 130 25 2046 4);
+   XApi (ASetPgnList 2 [130816; 0]);
+   XApi (ASetMode 2 251);
+   XApi ARestart;
+   XBase RPoll].
+Definition tx_per_op (evs:list (list event)) : list (list Z) := map (flat_map (fun e => match e with EvTx id _ _ _ => [id] | _ => [] end)) evs.
+
+Lemma ex_api_ops_ok : Forall xop_ok ex_api_ops.
+Proof. unfold ex_api_ops. repeat (constructor; try (simpl; unfold u8_ok; lia)). Qed.
+Print Assumptions ex_api_ops_ok.
+
+(* what the model does on this history (both with the library's group function handlers and without): claim 22, pending product
+   information, claim on request, TP.CM RTS to 50, two forced heartbeats, claim from 251; the refused calls send nothing *)
+Example C07_api_nonvacuous :
+  let r' := fst (xrun gf_lib ex_node ex_api_ops) in
+  let evs := snd (xrun gf_lib ex_node ex_api_ops) in
+  Forall xop_ok ex_api_ops /\ devs_bound 1 ex_api_ops /\ existsb is_set_mode ex_api_ops = true /\
+  r_oob r' = false /\ dev_src r' 0 = 251 /\ n_mode (rn r') = 2 /\ d_name (get_dev (rn r') 0) = 14065447600048320569 /\
+  fp0 (n_pgn (rn r')) = Some [130816; 0] /\
+  tx_per_op evs = [[]; []; []; []; []; [418316054]; []; [435164182]; [418316054]; []; []; [418132502]; [502272278]; []; [502272278];
+                   []; []; []; []; []; []; [418316283]; []] /\
+  tx_per_op (snd (xrun gf_none ex_node ex_api_ops)) = tx_per_op evs.
+Proof. split; [exact ex_api_ops_ok|]. split; [left; lia|]. vm_compute. repeat split; reflexivity. Qed.
+Print Assumptions C07_api_nonvacuous.
+
+(* the guards of the entry points are what keeps the flag down: the same internal functions with the refused indices set r_oob *)
+Example C07_api_guards_not_vacuous :
+  let r := fst (xrun gf_lib ex_node ex_api_ops) in
+  r_oob r = false /\
+  r_oob (fst (send_tx_list r 7 255 false)) = true /\ r_oob (fst (api_step r (ASendTxList 255 7 false))) = false /\
+  r_oob (set_name r 9 0) = true /\ r_oob (fst (api_step r (ASetDeviceInformation 9 12345 130 25 2046 4))) = false /\
+  r_oob (fst (send_config_info_to r (-1) 255 false)) = true /\ r_oob (fst (api_step r (ASendConf (-1)))) = false.
+Proof. vm_compute. repeat split; reflexivity. Qed.
+Print Assumptions C07_api_guards_not_vacuous.
+
+(* the theorem applies to this node and history (instance of C07_api_node_safe_lib) *)
+Example C07_api_instance :
+  let r' := fst (xrun gf_lib ex_node ex_api_ops) in
+  r_oob r' = false /\ Forall (Forall ev_ok) (snd (xrun gf_lib ex_node ex_api_ops)) /\ WF 1 5 40 r' /\ quiet r'.
+Proof.
+  apply (C07_api_node_safe_lib true 1 5000 40 5 no_lists [mk_dev true 22 13849274744920080385 []] [[]] ex_cfg ex_api_ops);
+    try lia; try discriminate; auto using ex_api_ops_ok.
+  - repeat constructor; unfold dev_ok; simpl; lia.
+  - left; simpl; lia.
+Qed.
+Print Assumptions C07_api_instance.
